@@ -151,7 +151,7 @@ package storage
 //@   loop 1 invariant mid <= i && i <= cnt(n) && cnt(newPg) == i - mid && compact(newPg) && slotsOK(newPg) && newPg.isLeaf && n.isLeaf
 //@   loop 1 invariant n.offsets == old(n.offsets) && n.leafCells == old(n.leafCells) && newPg.internalCells == nil
 //@   loop 1 invariant (newPg.offsets == nil || fresh(newPg.offsets)) && (newPg.leafCells == nil || fresh(newPg.leafCells))
-//@   loop 1 invariant forall k int :: 0 <= k && k < cnt(n) ==> n.offsets[k] == old(n.offsets[k]) && lc(n,k) == old(lc(n,k))
+//@   loop 1 invariant forall k int :: 0 <= k && k < cnt(n) ==> n.offsets[k] == old(n.offsets[k]) && lc(n,k) == old(lc(n,k)) && lc(n,k).deleted == old(lc(n,k).deleted)
 //@   loop 1 invariant forall j int :: 0 <= j && j < i - mid ==> lc(newPg,j).key == old(lc(n, mid + j).key) &&
 //@              lc(newPg,j).valueBytes == old(lc(n, mid + j).valueBytes) && lc(newPg,j).valueSize == old(lc(n, mid + j).valueSize) &&
 //@              lc(newPg,j).deleted == old(lc(n, mid + j).deleted) && allocated(lc(newPg,j))
